@@ -33,6 +33,7 @@ def plan(tier, seed):
             for ws in ([13, 14, 15, 16], [17], [18], [19], [20]):
                 shards.append(dict(no=no, g=g, part="windows", fam=fam, rep=0, ws=ws)); no += 1
         shards.append(dict(no=no, g=g, part="shapes")); no += 1
+        shards.append(dict(no=no, g=g, part="pow2")); no += 1
         for b in BOUNDS[2:6]:
             shards.append(dict(no=no, g=g, part="bound_explicit", b=b)); no += 1
         big = [b for b in BOUNDS[6:] if q and b <= 6492 or not q]
@@ -174,6 +175,18 @@ def run_shard(shard, tier, seed, wd, res):
             pts = [base[i % 64] for i in range(n)]
             ks = [small[(i * 7 + i // 64) % len(small)] for i in range(n)]
             s.op(gp + ".msm", V.lst([V.aff(g, p) for p in pts]), V.lst([V.RR(k) for k in ks]))
+    elif part == "pow2":
+        # list lengths at and around powers of two (block sizes, capacities) on every entry point
+        base = points64(g, seed)
+        small = [rng.getrandbits(255) for _ in range(5)] + [1, (1 << 255) - 1, 1 << 254]
+        for n in ((127, 128, 129, 255, 256, 257, 1023, 1024, 1025) if q else (63, 64, 65, 127, 128, 129, 255, 256, 257, 511, 512, 513, 1023, 1024, 1025, 2047, 2048, 2049, 4095, 4096, 4097)):
+            off = rng.randrange(64)
+            pts = V.lst([V.aff(g, base[(i + off) % 64]) for i in range(n)])
+            ks = V.lst([V.RR(small[(i * 5 + i // 64) % len(small)]) for i in range(n)])
+            s.op(gp + ".msm", pts, ks)
+            s.op(gp + ".msm_pip", pts, ks, V.n(rng.choice([3, 4, 5, 8])))
+            if n <= 600:
+                s.op(gp + ".msm_pre256", pts, ks, V.n(rng.randrange(4)))
     elif part == "bound_prog":
         b = shard["b"]
         timeout = 3000
